@@ -105,6 +105,8 @@ pub trait Node {
     fn child_mut(&mut self) -> &mut Self::BorrowedM;
     fn child_group_ref(&self) -> &Self::BorrowedG;
     fn consume(self) -> u64;
+    /// by-value call with a plain Result (no wrapped value takes the context over)
+    fn consume_res(self, fail: bool) -> Result<u64, u32>;
     fn consume_into(self) -> Self::Owned;
     /// Ok(child) when `made` (number of children handed out so far) is even, Err otherwise
     #[allow(clippy::result_unit_err)]
@@ -159,6 +161,13 @@ impl Node for NodeImp {
     }
     fn consume(self) -> u64 {
         self.dc.val() + 5
+    }
+    fn consume_res(self, fail: bool) -> Result<u64, u32> {
+        if fail {
+            Err(7)
+        } else {
+            Ok(self.dc.val() + 6)
+        }
     }
     fn consume_into(mut self) -> LeafImp {
         std::mem::replace(&mut self.kid, LeafImp::new(0))
